@@ -8,6 +8,7 @@ memcpy-param-overlap.
 import sys, os, array
 from vlib import gen, core
 
+MEMCHECK_SAMPLE = 4
 RULE = ("case = one history of 50 random operations over a backing memory of 0..64 bytes of kind "
         "bytearray / array.array('B','h','i','d') / ffi.new: buffer(p,k) windows, len, index "
         "(incl. negative and out of range), slices with arbitrary/negative/missing bounds, item and "
